@@ -281,7 +281,7 @@ def check_pair(meta, hit, v):
                     hit("dropped_allowed")
                 else:
                     mech = "silently dropped by the binder" if scripted else "not accepted by the function (TypeError at export)"
-                    v(f"dropped;{qn};{aname}", f"{qn}: schema argument {aname!r} ({a.real_type}) has no parameter in {fn.name}: {mech}")
+                    v(f"dropped;{qn};{aname}" + (";complex" if meta.is_complex else ""), f"{qn}: schema argument {aname!r} ({a.real_type}) has no parameter in {fn.name}: {mech}")
                 continue
             pname = landed[aname]
             p = params.get(pname)
